@@ -54,6 +54,36 @@ func (fs *fileSet) fn(name string) *ast.FuncDecl {
 	return nil
 }
 
+// fnRecv finds a function by name, or a method by "Receiver.name".
+func (fs *fileSet) fnRecv(name string) *ast.FuncDecl {
+	recv := ""
+	if i := strings.Index(name, "."); i >= 0 {
+		recv, name = name[:i], name[i+1:]
+	}
+	for _, f := range fs.files {
+		for _, d := range f.Decls {
+			fd, ok := d.(*ast.FuncDecl)
+			if !ok || fd.Name.Name != name || fd.Body == nil {
+				continue
+			}
+			if recv == "" {
+				return fd
+			}
+			if fd.Recv == nil || len(fd.Recv.List) == 0 {
+				continue
+			}
+			t := fd.Recv.List[0].Type
+			if st, ok := t.(*ast.StarExpr); ok {
+				t = st.X
+			}
+			if id, ok := t.(*ast.Ident); ok && id.Name == recv {
+				return fd
+			}
+		}
+	}
+	return nil
+}
+
 func calleeName(c *ast.CallExpr) string {
 	switch f := c.Fun.(type) {
 	case *ast.Ident:
@@ -427,6 +457,40 @@ func main() {
 		}
 		b.WriteString("  ]\n")
 	}
+	// … and of the functions of the internal packages the Flatten model transcribes (replace, normalize, operations,
+	// sortref, schutils): "<package>.<function>" or "<package>.<Receiver>.<method>"
+	internal := []struct {
+		dir   string
+		names []string
+	}{
+		{"internal/flatten/replace", []string{"RewriteSchemaToRef", "rewriteParentRef", "getPointerFromKey", "getParentFromKey", "isNilTarget",
+			"UpdateRef", "UpdateRefWithSchema", "DeepestRef"}},
+		{"internal/flatten/normalize", []string{"RebaseRef", "Path"}},
+		{"internal/flatten/operations", []string{"AllOpRefsByRef", "OpRefsByRef", "OpRefs.Less", "GatherOperations"}},
+		{"internal/flatten/sortref", []string{"Keys.Less", "KeyParts", "DefinitionName", "isKeyName", "BuildName", "ResponseName", "PathItemRef",
+			"PathRef", "DepthFirst", "topmostRefs.Less", "TopmostFirst", "ReverseIndex"}},
+		{"internal/flatten/schutils", []string{"Save", "Clone"}},
+	}
+	b.WriteString("  internalSkeletons := [\n")
+	first := true
+	for _, pk := range internal {
+		pfs, perr := parseDir(filepath.Join(*repo, pk.dir))
+		for _, n := range pk.names {
+			sk := []string{"<missing>"}
+			if perr == nil {
+				if fd := pfs.fnRecv(n); fd != nil {
+					sk = nil
+					skeletonStmts(pfs.fset, fd.Body.List, &sk, "")
+				}
+			}
+			if !first {
+				b.WriteString(",\n")
+			}
+			first = false
+			fmt.Fprintf(&b, "    (%s, %s)", leanStr(filepath.Base(pk.dir)+"."+n), leanStrList(sk))
+		}
+	}
+	b.WriteString("\n  ]\n")
 	kb, kerr := generateKeysLean(*repo)
 	if kerr != nil {
 		fmt.Fprintln(os.Stderr, "extract: keys:", kerr)
